@@ -25,7 +25,7 @@ def mkobj(vc, key, **fields):
     m = vc.interp.load_module(modname)
     if cname not in m.classes:
         raise Unsupported(f"class {key} not found")
-    return I.SObj(m.classes[cname], fields)
+    return I.SObj(m.classes[cname], fields, partial=True)
 
 
 def classref(vc, key):
